@@ -1141,7 +1141,7 @@ lyd_diff_insert(struct lyd_node **first_node, struct lyd_node *parent_node, stru
         const char *userord_anchor)
 {
     LY_ERR ret;
-    struct lyd_node *anchor;
+    struct lyd_node *anchor, *iter;
     uint32_t pos, anchor_pos;
     int found;
 
@@ -1201,6 +1201,17 @@ lyd_diff_insert(struct lyd_node **first_node, struct lyd_node *parent_node, stru
                 return LY_EINVAL;
             } else if (ret) {
                 return ret;
+            }
+
+            if (anchor->flags & LYD_DEFAULT) {
+                /* until the data are validated, default instances may exist next to the created explicit ones (a diff
+                 * without defaults ignores them), the anchor is the explicit instance then */
+                LYD_LIST_FOR_INST(*first_node, new_node->schema, iter) {
+                    if (!(iter->flags & LYD_DEFAULT) && !lyd_compare_single(iter, anchor, 0)) {
+                        anchor = iter;
+                        break;
+                    }
+                }
             }
         }
 
